@@ -5,7 +5,9 @@ import (
 	"math/rand"
 	"time"
 
+	"verif/harness/internal/bt"
 	"verif/harness/internal/btconc"
+	"verif/harness/internal/j"
 	"verif/harness/internal/tlc"
 )
 
@@ -112,6 +114,43 @@ func checkC16Races(c *Ctx) {
 			procs = append(procs, btconc.Proc{Name: procName(p + 2), Op: concOp(kinds[(p+i)%len(kinds)], rowKey(1+r.Intn(230)), procName(p+2))})
 		}
 		jobs = append(jobs, concJob{engine: engines[i%3], setup: concSetup(230, true, 2), procs: procs, opt: btconc.Options{Free: true}, label: fmt.Sprintf("free-running GC pass + 6 writers %d", i)})
+	}
+	// targeted: every stored cell is older than the max-age rule allows, so the pass empties (and finally deletes)
+	// the rows; the pass is driven into each of its lock hand-overs and there rows it has already emptied, the row
+	// it will collect next and rows further on are written or deleted
+	for ei, eng := range engines {
+		if c.Quick() && ei != int(c.Seed)%len(engines) && ei != (int(c.Seed)+1)%len(engines) {
+			continue
+		}
+		setup := []bt.Op{{Ev: "CreateTable", T: concTable, Parent: btParent, Fams: []bt.FamDef{{F: j.S("f"), Rule: bt.Rule{T: "maxage", Us: 1_000_000}}, {F: j.S("g"), Rule: bt.Rule{T: "none"}}}}}
+		fill := bt.Op{Ev: "MutateRows", T: concTable, Now: j.N64(concNow)}
+		for i := 1; i <= 230; i++ {
+			ms := []bt.Mut{{M: "set", F: j.S("f"), Q: j.S("x"), Ts: 0, V: j.S("v")}, {M: "set", F: j.S("f"), Q: j.S("x"), Ts: 1000, V: j.S("v")}}
+			if i%7 == 0 {
+				ms = append(ms, bt.Mut{M: "set", F: j.S("g"), Q: j.S("y"), Ts: 1000, V: j.S("kept")})
+			}
+			fill.Entries = append(fill.Entries, bt.Entry{K: rowKey(i), Muts: ms})
+		}
+		setup = append(setup, fill)
+		procs := []btconc.Proc{{Name: "p1", Op: concOp("gc", nil, "p1")}}
+		sched := []string{"p1>window"}
+		np := 1
+		add := func(kind string, row int) {
+			np++
+			procs = append(procs, btconc.Proc{Name: procName(np), Op: concOp(kind, rowKey(row), procName(np))})
+			sched = append(sched, procName(np)+"!")
+		}
+		add("mut2", 50)  // a row the pass has emptied
+		add("incr", 60)  // likewise, with a fresh timestamp
+		add("mut2", 101) // the row the pass collects next
+		add("del", 150)  // a row further on
+		add("mut2", 100) // the row the batch ended on
+		sched = append(sched, "p1>window")
+		add("mut2", 50)
+		add("mut2", 201)
+		add("incr", 230)
+		add("del", 60)
+		jobs = append(jobs, concJob{engine: eng, setup: setup, procs: procs, sched: sched, label: "targeted GC pass: max-age empties every row; writes in both lock hand-overs"})
 	}
 	c.runConc("C16", jobs)
 }
